@@ -171,6 +171,25 @@ func c12Eval(k c12Case) (string, string) {
 	return "ok", ""
 }
 
+// c12Trampolines: one or two round trips between the start of the program and
+// a region `pad` instructions further (beyond the 17-instruction L1I window).
+func c12Trampolines() []string {
+	body := []string{"", "nop", "addi t0, t0, 1", "lw t1, 0(zero)"}
+	var out []string
+	for _, pad := range []int{14, 18, 40} {
+		padding := strings.TrimSuffix(strings.Repeat("nop\n", pad), "\n")
+		for _, x := range body {
+			for _, y := range body {
+				out = append(out, lines("j far1", "back1:", x, "j end", padding, "far1:", y, "j back1", "end:", "addi t2, t0, 1"))
+				out = append(out, lines("j far1", "back1:", x, "j far2", "back2:", x, "j end", padding, "far1:", y, "j back1", "far2:", y, "j back2", "end:", "addi t2, t0, 1"))
+			}
+		}
+		// jumps only: no fetch ever hits the window
+		out = append(out, lines("j far1", "back1:", "j end", padding, "far1:", "j back1", "end:", "ret"))
+	}
+	return out
+}
+
 func c12Run(c *RunCtx) {
 	type set struct {
 		alpha []string
@@ -182,14 +201,26 @@ func c12Run(c *RunCtx) {
 	}
 	i := -1
 	progs := 0
+	var texts []func() string
 	for _, st := range sets {
 		alpha := st.alpha
 		seqs(len(alpha), st.n, func(idx []int) {
+			idx = append([]int(nil), idx...)
+			texts = append(texts, func() string { return buildProg(alpha, idx) })
+		})
+	}
+	// programs longer than the instruction-cache window, leaving it forwards and backwards
+	for _, t := range c12Trampolines() {
+		t := t
+		texts = append(texts, func() string { return t })
+	}
+	{
+		for _, mk := range texts {
 			i++
 			if !c.Mine(i) {
-				return
+				continue
 			}
-			text := buildProg(alpha, idx)
+			text := mk()
 			progs++
 			type run struct {
 				ref refResult
@@ -270,10 +301,10 @@ func c12Run(c *RunCtx) {
 			if progs%101 == 1 {
 				c.Sample(map[string]any{"program": strings.Split(strings.TrimSpace(text), "\n"), "initial_states": len(c12Inits), "configs": len(pxConfigs)})
 			}
-		})
+		}
 	}
 	c.AddExtra("programs", float64(progs))
-	c.Sum.Rule = "PX: every program of the C01 general set up to length 2 (thorough: plus every length-3 program over the core alphabet) x 7 initial states x 33 configurations; MVP-1 exact against the latency model computed from the reference trace, MVP-2 <= MVP-1, cycles > 0 and >= ceil(n/width) everywhere, and equal cycles for every pair of initial states with identical reference pc and address sequences; non-trivial = distinct programs for which at least one such pair of initial states exists"
+	c.Sum.Rule = "PX: every program of the C01 general set up to length 2 (thorough: plus every length-3 program over the core alphabet) plus 99 trampoline programs (bodies of zero or one instruction at each landing point) (one or two round trips between the start of the program and a region 14 / 18 / 40 instructions further, i.e. inside and beyond the 17-instruction L1I window) x 7 initial states x 33 configurations; MVP-1 exact against the latency model computed from the reference trace, MVP-2 <= MVP-1, cycles > 0 and >= ceil(n/width) everywhere, and equal cycles for every pair of initial states with identical reference pc and address sequences; non-trivial = distinct programs for which at least one such pair of initial states exists"
 	c.Assume("the latency table is an independent copy of the documented one (memory 309, register 1, decode 1, loads 50 execute cycles, others 1); an instruction that produces a register result pays the register write-back even when rd is zero")
 	c.Assume("only executions whose architectural result equals the reference take part (wrong results are C01's)")
 }
